@@ -22,7 +22,7 @@ CHECKS = {
                 "priv>15, stop+watchdog); oracles: encode ok => decode(encode(v)) == v; !fits(v) by the harness' own width table => "
                 "encode errors; Validate(v) != nil => encode errors. decode-first: model-encoded values plain / with trailing bytes / "
                 "mutated / truncated / raw bytes; oracle: decode ok => encode ok and decode(encode(v)) == v, and decoding the same bytes into a reused target (already holding another value) gives the same value. Plus a deterministic "
-                "sweep of every boundary length of every field. Non-trivial: stretched, spoiled, swept or non-plain decode input.",
+                "sweep of every boundary length of every field and of the library's whole (major, minor) version value space in a Header. Non-trivial: stretched, spoiled, swept or non-plain decode input.",
         "assumptions": COMMON_ASSUME,
     },
     "C04": {
@@ -56,7 +56,7 @@ CHECKS = {
                 "that returns at most one chunk per Read; server side: a recording handler must receive exactly the written "
                 "headers+cleartexts in order, nothing for the partial packet, connection closed, oversize refused without parking "
                 "for more input and with <64KiB allocated; client side (verif hook): successive Client.Send calls return the "
-                "packets in order and an error for the remainder. One server-side case in four runs the server with SetUseProxy(true) and puts an HAProxy line (NUL-terminated) before every packet. Plus: 3 packets x every single cut position x both sides. "
+                "packets in order (each compared at once and again after all later packets were received) and an error for the remainder. One server-side case in four runs the server with SetUseProxy(true) and puts an HAProxy line (NUL-terminated) before every packet. Plus: 3 packets x every single cut position x both sides. "
                 "Non-trivial: >=2 packets with a cut strictly inside a packet, or a terminal event other than EOF at a boundary.",
         "assumptions": COMMON_ASSUME + ["scripted net.Conn is a faithful connection (short reads, EOF, timeout errors as a TCP socket produces)"],
     },
@@ -100,12 +100,12 @@ CHECKS = {
                 "or one byte per read, handler optionally held), a partial packet (1..19 bytes, one byte per read, then the read "
                 "deadline is made to expire) or EOF; a cancellation point (before the first accept, inside Accept just before it "
                 "hands out a chosen connection, while all reads are parked, while a held handler runs, at the end); GOMAXPROCS 1/2/"
-                "default. The scripted listener/connections/handler own the schedule and stamp every Accept, SetDeadline, Read, "
+                "default; one case in four uses the reference Loader (given the same context as Serve, as main.go does) and the reference handlers instead of a static provider. The scripted listener/connections/handler own the schedule and stamp every Accept, SetDeadline, Read, "
                 "Write, Close, handler begin/end and Serve's return. Oracles on the stamps: listener closed before Serve returns; "
                 "every accepted connection closed and every handler finished before Serve returns, no activity after; every Read "
                 "preceded by a finite deadline armed since the last packet; deadline not re-armed >=3 times within one packet; a "
                 "stalled partial packet is closed on expiry and reaches no handler; Serve returns once Accept and all reads timed "
-                "out (watchdog 30 s => inconclusive, never a violation). Non-trivial: cancel while >=1 connection is open "
+                "out; if it has not after 10 s, the goroutine dump decides: no server goroutine parked in the harness' Read/Accept and an unchanged picture one second later is a hang (violation), anything else is inconclusive. Non-trivial: cancel while >=1 connection is open "
                 "(in-accept/parked/in-handler) or a mid-packet stall.",
         "assumptions": COMMON_ASSUME + ["deadline expiry is injected by the scripted connection (only honoured if a non-zero deadline is armed); 15 s / 10 s constants are not waited for",
                                          "unbounded liveness is out of reach; bounded liveness under the owned schedule is checked"],
@@ -138,8 +138,8 @@ CHECKS = {
     "C10": {
         "quick": 2500, "thorough": 100000,
         "rule": "rapid draws a two-scope configuration (1..5 user entries over 5 names incl. 255- and 129-byte names, assigned to scope A, B, "
-                "both or none, each with an authenticator variant: none / bcrypt hash / non-hex hash / keychain by key+group with or "
-                "without keychain entry / no options / unregistered type / inherited from the first group that has one; YAML or JSON), "
+                "both or none, each with an authenticator variant: none / bcrypt hash / non-hex hash / valid hex that is no bcrypt hash / keychain by key+group with or "
+                "without keychain entry or answering with a non-bcrypt value / no options / unregistered type / inherited from the first group that has one; users of both scopes list them in either order; YAML or JSON), "
                 "the scope the connection comes from, and 1..3 interleaved authentication sessions: ASCII login with the user in "
                 "START or in CONTINUE, PAP, wrong/empty/other-user's/other-scope's password, abort at any step, every "
                 "action/type/service/minor START carrying a password, CONTINUE to a fresh session, START mid-exchange, wrong-minor "
@@ -153,7 +153,7 @@ CHECKS = {
     },
     "C11": {
         "quick": 12000, "thorough": 480000,
-        "rule": "rapid draws a policy for 1..2 users (0..6 user rules + 0..2 groups x 0..4 rules; rule name from a 4-word pool, '*' or a "
+        "rule": "rapid draws a two-scope configuration whose users live in one scope or in both (listed in either order), a connection from either scope, and a policy for 1..2 users (0..6 user rules + 0..2 groups x 0..4 rules; rule name from a 4-word pool, '*' or a "
                 "padded name; action permit/deny/other; 0..3 patterns from a grammar: words, .*, alternations, partial anchors, "
                 "groups, escaped metacharacters, classes, surrounding whitespace, empty, invalid; 0..3 services per user/group with "
                 "0..3 set-values (optional or not), match conditions on protocol/scope/multi-value) rendered to YAML or JSON, and 1..6 "
@@ -245,7 +245,7 @@ CHECKS = {
                 "value/group entries; YAML or JSON) and 1..4 hostile connections of 1..8 chunks each: packets of authentication "
                 "scripts in every handler state (with follow-ups), authorizations incl. degenerate arguments, accounting with any "
                 "flag octet, well-formed bodies of other packet types, each optionally with 1..3 mutated cleartext octets, cut "
-                "short, or with mutated header octets; requests against a user with a generated C11-style policy (invalid patterns included), often sent twice; random garbage; headers announcing 0..2^32-1 bytes with short tails; one case in four in HAProxy mode with well-formed and hostile proxy lines; ending "
+                "short, or with mutated header octets; requests against a user with a generated C11-style policy (invalid patterns included), often sent twice; random garbage; headers announcing 0..2^32-1 bytes with short tails; one case in four in HAProxy mode with well-formed and hostile proxy lines; some configurations carry a secret configuration whose prefix list parses to nothing; one connection in six comes from an address no configuration covers; before one connection in six the listener's Accept fails once with a temporary non-timeout error; ending "
                 "in EOF or silence. Oracle: no handler panics (a wrapping handler records and recovers them; a panic outside a "
                 "handler kills the test process, which the driver reports with the journalled case), and before/after every hostile "
                 "connection a fresh control connection completes a known-good PAP login with PASS. Thorough adds native "
